@@ -32,6 +32,8 @@ BASES = {
                      index={"kind": "multi", "levels": [S.comp(name="k1", dtype="str"), S.comp(name="k2", dtype="int64")],
                             "strict": False, "ordered": True, "unique": None, "coerce": False}),
     "datetime": S.frame(cols=[S.comp(name="t", dtype="datetime64[ns]"), S.comp(name="a", dtype="int64")]),
+    "timedelta": S.frame(cols=[S.comp(name="d", dtype="timedelta64[ns]"), S.comp(name="a", dtype="int64")],
+                         index=dict(S.comp(name="dt", dtype="timedelta64[ns]"), kind="single")),
 }
 
 NASTY = "it's: a \"title\" # 100%"
@@ -47,8 +49,11 @@ CHECKS = {
             {"k": "str_endswith", "a": ["z"]}, {"k": "str_length", "a": [1, 3]}, {"k": "str_length", "a": [1, None]},
             {"k": "isin", "a": [["x", "yy", "z"]]}, {"k": "notin", "a": [["q'q", "r\"r"]]}, {"k": "eq", "a": ["it's"]}],
     "datetime": [{"k": "ge", "a": ["2020-01-01"]}, {"k": "le", "a": ["2021-12-31T12:00:00"]}],
+    # durations are written as integer nanoseconds: the zero duration is the value a falsy test would lose
+    "timedelta": [{"k": "ge", "a": ["0s"]}, {"k": "le", "a": ["5s"]}, {"k": "in_range", "a": ["0s", "5s"]}, {"k": "eq", "a": ["0s"]},
+                  {"k": "gt", "a": ["-1s"]}],
 }
-KIND = {"int64": "int", "float64": "float", "str": "str", "datetime64[ns]": "datetime"}
+KIND = {"int64": "int", "float64": "float", "str": "str", "datetime64[ns]": "datetime", "timedelta64[ns]": "timedelta"}
 
 
 def schema_edits(spec):
@@ -66,8 +71,9 @@ def schema_edits(spec):
     tids = [t for t, _ in E._targets(spec)]
     shared = {"k": "ne", "a": [-1], "kw": {"raise_warning": True, "ignore_na": False}}
     for pair in (("level:k1", "level:k2"), ("col:a", "level:k2"), ("col:a", "index"), ("col:a", "col:c")):
-        if all(t in tids for t in pair):
-            eds.append(["sharecheck", list(pair), shared])
+        dts = dict(E._targets(spec))
+        if all(t in tids for t in pair) and not any(dts[t]["dtype"] in ("timedelta64[ns]", "datetime64[ns]") for t in pair):
+            eds.append(["sharecheck", list(pair), shared])   # (an int argument on a temporal component is not a serialisable check)
     eds += [["frame", "strict", True], ["frame", "strict", "filter"], ["frame", "ordered", True], ["frame", "coerce", True],
             ["frame", "name", "my schema"], ["frame", "name", NASTY], ["frame", "title", NASTY], ["frame", "description", NASTY],
             ["frame", "unique", "a"], ["frame", "unique", ["a"]], ["frame", "report_duplicates", "exclude_first"],
@@ -123,6 +129,9 @@ def _build(spec):
         if c["dtype"] == "datetime64[ns]":
             for ch in c["checks"]:
                 ch["a"] = [pd.Timestamp(x) for x in ch["a"]]
+        if c["dtype"] == "timedelta64[ns]":
+            for ch in c["checks"]:
+                ch["a"] = [pd.Timedelta(x) for x in ch["a"]]
     with warnings.catch_warnings():
         warnings.simplefilter("ignore")
         return S.build_pandas(spec)
@@ -217,13 +226,14 @@ def _probe_tables(spec):
     base = {"cols": [], "index": None}
     for c in spec["cols"]:
         vals = {"int64": [1, 2, 3], "str": ["x", "yy", "z"], "float64": [1.5, 2.5, 3.5],
-                "datetime64[ns]": ["2020-06-01", "2020-07-01", "2021-01-01"]}[c["dtype"]]
+                "datetime64[ns]": ["2020-06-01", "2020-07-01", "2021-01-01"], "timedelta64[ns]": ["0s", "1s", "6s"]}[c["dtype"]]
         nm = c["name"] if not c.get("regex") else c["name"].strip("^$").replace("\\d+", "1")
         base["cols"].append({"name": nm, "dtype": {"str": "object"}.get(c["dtype"], c["dtype"]), "values": list(vals)})
     ix = spec.get("index")
     if ix is not None:
         if ix.get("kind", "single") == "single":
-            base["index"] = {"kind": "single", "values": [1, 2, 3], "dtype": "int64", "name": ix.get("name")}
+            base["index"] = {"kind": "single", "values": [1, 2, 3], "dtype": "int64", "name": ix.get("name")} if ix["dtype"] != "timedelta64[ns]" else \
+                {"kind": "single", "values": ["0s", "2s", "4s"], "dtype": "timedelta64[ns]", "name": ix.get("name")}
         else:
             base["index"] = {"kind": "multi", "levels": [{"values": ["p", "q", "r"], "dtype": "object", "name": "k1"},
                                                           {"values": [1, 2, 3], "dtype": "int64", "name": "k2"}]}
